@@ -157,6 +157,7 @@ type c16FlapOut struct {
 	Frames    int64          `json:"frames_tapped"`
 	PeakBook  int64          `json:"peak_entries_seen"`
 	LiveKills [][2]int       `json:"links_closed_while_tunnels_live,omitempty"`
+	IdleAtKill int           `json:"idle_tunnels_open_at_kill,omitempty"`
 }
 
 // c16FlapScenario runs one link-flap history. judgeData: apply the byte-exactness oracle to the
@@ -233,9 +234,7 @@ func c16FlapScenario(t testing.TB, r *verifkit.R, phase string, ci int, rng *ver
 	out.FlapEdge, out.Closer = e, closer
 	oldA := m.nodes[e[0]].a.peerMgr.GetPeer(m.nodes[e[1]].a.ID())
 	oldB := m.nodes[e[1]].a.peerMgr.GetPeer(m.nodes[e[0]].a.ID())
-	if c := m.nodes[closer].a.peerMgr.GetPeer(m.nodes[other].a.ID()); c != nil {
-		c.Close()
-	} else {
+	if !mkKillLink(m.nodes[closer].a, m.nodes[other].a.ID()) {
 		return fail("link to flap was not up")
 	}
 	deadline := time.Now().Add(40 * time.Second)
@@ -359,12 +358,23 @@ func c16FlapScenario(t testing.TB, r *verifkit.R, phase string, ci int, rng *ver
 			}
 		}
 		out.LiveKills = kills
-		plans := make([]mkTunnelPlan, 2+rng.Intn(3))
+		plans := make([]mkTunnelPlan, 1+rng.Intn(3))
 		for i := range plans {
 			plans[i] = mkTunnelPlan{ID: base + 0x500 + uint64(i), Ingress: 0, Via: "tcp", Dest: destOf(90 + i), C2S: int64(200000 + rng.Intn(300000)), S2C: int64(2000000 + rng.Intn(2000000)),
 				Mode: mkModeOrderly, Chunk: 4096, ReaderStallMs: 400}
 		}
 		out.Stage2 = append(out.Stage2, plans...)
+		// ... plus tunnels that are open but idle, whose clients close them right after the
+		// links died (their STREAM_CLOSE can no longer reach the transit: whatever the transit
+		// recorded for them must go with the peer disconnect, nothing else will remove it)
+		var idle []*mkHeld
+		for i := 0; i < 2+rng.Intn(3); i++ {
+			p := mkTunnelPlan{ID: base + 0x600 + uint64(i), Ingress: 0, Via: "tcp", Dest: destOf(120 + i), C2S: 1 << 20, S2C: int64(100 + rng.Intn(2000)), Mode: mkModeOrderly}
+			if h, err := mkOpenHeld(m, p); err == nil {
+				idle = append(idle, h)
+			}
+		}
+		out.IdleAtKill = len(idle)
 		var wg sync.WaitGroup
 		for i := range plans {
 			wg.Add(1)
@@ -375,9 +385,10 @@ func c16FlapScenario(t testing.TB, r *verifkit.R, phase string, ci int, rng *ver
 		}
 		time.Sleep(time.Duration(60+rng.Intn(120)) * time.Millisecond)
 		for _, k := range kills {
-			if c := m.nodes[k[0]].a.peerMgr.GetPeer(m.nodes[k[1]].a.ID()); c != nil {
-				c.Close()
-			}
+			mkKillLink(m.nodes[k[0]].a, m.nodes[k[1]].a.ID())
+		}
+		for _, h := range idle {
+			h.close()
 		}
 		wg.Wait()
 	}
